@@ -7,6 +7,8 @@ package app
 import (
 	"fmt"
 	"strings"
+	"sync"
+	"sync/atomic"
 	"testing"
 
 	"verif.local/vlib/ora"
@@ -69,7 +71,9 @@ func TestVerifC03(t *testing.T) {
 				sn := []int{-1, rng.Intn(10), 10 + rng.Intn(100_000)}[rng.Intn(3)]
 				cfgs = append(cfgs, cfgT{[]string{"number", "time", "tlnr"}[rng.Intn(3)], sn, st})
 			}
-			for _, c := range cfgs {
+			for ci, c := range cfgs {
+				var seqURLs []string
+				var seqHashes []uint64
 				var parts []string
 				switch c.mode {
 				case "time":
@@ -212,9 +216,39 @@ func TestVerifC03(t *testing.T) {
 						wb = ">=1000"
 					}
 					r.Class(fmt.Sprintf("%s|%s|%s|k=%d|wraps=%s|%s", w.Ref.Path, rid, c.mode, n%N, wb, shape))
+					if ci < 2 && len(seqURLs) < 48 {
+						seqURLs, seqHashes = append(seqURLs, full), append(seqHashes, vfHash(resp.Body))
+					}
 					if sampled < 3 && shape != "inside-loop" {
 						sampled++
 						r.Sample(map[string]any{"url": full, "n": n, "tfdt": ps.Tfdt, "frames": len(ps.Samples), "shape": shape})
+					}
+				}
+				// the same segments asked for by eight clients at once: the assembly of a segment from source frames must not share
+				// working memory between requests (answers compared with the ones given one at a time above)
+				if len(seqURLs) > 0 {
+					var wg sync.WaitGroup
+					var bad int32
+					for g := 0; g < 8; g++ {
+						wg.Add(1)
+						go func(g int) {
+							defer wg.Done()
+							for k := 0; k < len(seqURLs); k++ {
+								i := (k*3 + g*5) % len(seqURLs)
+								resp := vfGet(w.Srv, seqURLs[i])
+								if resp.Code != 200 || vfHash(resp.Body) != seqHashes[i] {
+									if atomic.AddInt32(&bad, 1) == 1 {
+										r.Violation(c.mode+":concurrent-answer-differs-from-the-answer-given-alone", map[string]any{"url": seqURLs[i], "status": resp.Code, "clients": 8})
+									}
+									return
+								}
+							}
+						}(g)
+					}
+					wg.Wait()
+					r.Eval(8 * len(seqURLs))
+					if bad == 0 {
+						r.Class(fmt.Sprintf("%s|%s|%s|concurrent", w.Ref.Path, rid, c.mode))
 					}
 				}
 				// MPD audio SegmentTimeline lists exactly these start times and durations
